@@ -66,6 +66,7 @@ def run(ctx):
         orgs = [0, 0x7c00, 0xfff0]
     import c03
     mcst = c03.mc(ctx, 4 if quick else 5)
+    ctx.apalache("BranchLemma", "Lemma")
     cells = gen(ctx, dists, orgs)
     R = flow.Runner(ctx)
     for c in cells:
@@ -88,6 +89,7 @@ def run(ctx):
                     "0..140 and 32755..32775" if not quick else str(dists), [hex(o) for o in orgs]),
         "samples": [R.cases[i]["src"] for i in (0, len(R.cases) // 3, len(R.cases) - 1)],
         "model_checking": "MC_Asm: Inv_C04 (every branch chunk decodes to the named condition and lands on the real address of its target) holds in all %d states of all programs of length <= %d" % (mcst["distinct"], 4 if quick else 5),
+        "symbolic_lemma": "BranchLemma.tla (Apalache, all 2^16 x 2^16 address pairs): a rel16 displacement holding the low 16 bits of target-(address+length) lands on the target modulo 2^16; a rel8 displacement lands whenever the distance fits a signed byte",
         "tlc_runs": ctx.tlc_stats[:8], "exhaustive": True,
     }
     return report.finish(ctx, "C04", viol, known, other, R, cov, ASSUME)
